@@ -8,6 +8,7 @@ import Driver.DynArr
 import Driver.StoreDrv
 import Driver.Acct
 import Driver.Eng
+import Driver.Sess
 
 open Jesse
 
@@ -23,6 +24,7 @@ def step (s : DState) (line : String) : DState × String :=
   | "fa" :: args => (s, Driver.StoreDrv.handleFa args)
   | "st" :: args => (s, Driver.StoreDrv.handleSt args)
   | "eng" :: args => (s, Driver.Eng.handle args)
+  | "sess" :: args => (s, Driver.Sess.handle args)
   | "acc" :: args => let (d, o) := Driver.Acct.handle s.acc args; ({ s with acc := d }, o)
   | "da" :: args => let (d, o) := Driver.DynArr.handle s.da args; ({ s with da := d }, o)
   | [] => (s, "")
